@@ -285,3 +285,6 @@ def run_case(case):
             out.label("multi-fault")
     out.info = {"executed": len(executed), "sut_runs": runs}
     return out
+
+
+RULE = RULE + " " + 'Later additions: fault kind bad-kwargs (the failing event carries a keyword argument its handler does not take); exclusive bounded runs and the replication end as bound; after every command START_REPLICATION was notified exactly once and the replication state is STARTED / ENDED.'
